@@ -26,7 +26,10 @@ class IrParseException(Exception):
 def tokenize(lines):
     # Create a regular expression for the lexing part:
     tok_spec = [
-        ("FLOAT", r"\-?\d+\.\d+"),
+        (
+            "FLOAT",
+            r"\-?\d+\.\d+(?:e[\-\+]\d+)?|\-?\d+e[\-\+]\d+|\-inf\b",
+        ),
         ("INT", r"\-?\d+"),
         ("STRING", r"'[^']*'"),
         ("ID", r"[A-Za-z][A-Za-z\d_]*"),
@@ -349,6 +352,9 @@ class Reader:
                     self.consume(":")
                     v1 = self.parse_value_ref(ty=ty)
                     ins.set_incoming(b1, v1)
+            elif a in ("inf", "nan") and self.peek == ";":
+                # Non-finite floating point constant
+                ins = ir.Const(float(a), name, ty)
             elif a == "alloc":
                 size = self.parse_integer()
                 self.consume_keyword("bytes")
